@@ -19,12 +19,12 @@ LEAF_EXCLUDE = ()
 # ---- scalars -----------------------------------------------------------------------------------
 def gen_scalar(rng, cplx_ok, opdt):
     """JSON description of a scalar: type in {int, float, complex, npscalar, arr0} and value."""
-    kinds = ["int", "float", "npscalar", "arr0"] + (["complex", "npcomplex"] if cplx_ok else [])
+    kinds = ["int", "float", "npscalar", "arr0"] + (["complex", "npcomplex", "arr0complex"] if cplx_ok else [])
     t = S.pick(rng, kinds)
     v = float(S.pick(rng, [-3, -2, -1, 2, 3, 0.5, -0.25, 4, 0]))
     if t == "int":
         v = int(S.pick(rng, [-3, -2, -1, 2, 3, 0]))
-    if t in ("complex", "npcomplex"):
+    if t in ("complex", "npcomplex", "arr0complex"):
         return {"t": t, "re": v, "im": float(S.pick(rng, [-2, -1, 1, 2])), "dt": opdt}
     return {"t": t, "v": v, "dt": opdt}
 
@@ -49,11 +49,13 @@ def mk_scalar(sc, opdtype=None):
         return np.array(sc["v"], dtype=real_dt)
     if t == "npcomplex":
         return cplx_dt(complex(sc["re"], sc["im"]))
+    if t == "arr0complex":  # a complex scalar handed over as a 0-d array (what xnp.array(c) or a reduction returns)
+        return np.array(complex(sc["re"], sc["im"]), dtype=cplx_dt)
     raise ValueError(t)
 
 
 def is_zero(sc):
-    return sc.get("v", 1) == 0 and sc["t"] not in ("complex", "npcomplex")
+    return sc.get("v", 1) == 0 and sc["t"] not in ("complex", "npcomplex", "arr0complex")
 
 
 # ---- expressions ---------------------------------------------------------------------------------
